@@ -145,6 +145,9 @@ func (c *SpecCtx) resolveType(ex ast.Expr) types.Type {
 		if x.Name == "Z" {
 			return mathInt
 		}
+		if x.Name == "bytes" {
+			return &ghostArrT{elem: types.Typ[types.Uint8]}
+		}
 		if obj := types.Universe.Lookup(x.Name); obj != nil {
 			if tn, ok := obj.(*types.TypeName); ok {
 				return tn.Type()
@@ -379,6 +382,9 @@ func (e *Exec) resultIndex(name string) int {
 	}
 	if name == "result" && res.Len() == 1 {
 		return 0
+	}
+	if name == "err" && res.Len() > 0 && res.At(res.Len()-1).Type().String() == "error" {
+		return res.Len() - 1
 	}
 	if strings.HasPrefix(name, "result") {
 		if k, err := strconv.Atoi(name[6:]); err == nil && k < res.Len() {
@@ -619,7 +625,11 @@ func (c *SpecCtx) indexExpr(x *ast.IndexExpr, sn *SpecNode) (Value, types.Type) 
 		if it != nil && !isMath(it) {
 			idx = e.toIdx(idx, it)
 		}
-		return Select(base.(*Node), idx), g.elem
+		r := Select(base.(*Node), idx)
+		if !r.bound && e.mode == ModeInt {
+			c.st.assume(e.ar.inRange(r, g.elem))
+		}
+		return r, g.elem
 	}
 	switch u := bt.Underlying().(type) {
 	case *types.Slice:
@@ -727,6 +737,90 @@ func (c *SpecCtx) callExpr(x *ast.CallExpr, sn *SpecNode) (Value, types.Type) {
 				t = mathInt
 			}
 			return Ite(cnd.(*Node), c.coerce(a, at, t), c.coerce(b, bt, t)), t
+		case "bytek":
+			v, t := c.expr(x.Args[0], sn)
+			kv, _ := c.expr(x.Args[1], sn)
+			kc, ok := kv.(*ConstV)
+			if !ok {
+				c.fail("bytek needs a constant byte index")
+			}
+			k := int(kc.V.Int64())
+			n := v.(*Node)
+			if e.mode == ModeBV {
+				return App(fmt.Sprintf("(_ extract %d %d)", 8*k+7, 8*k), bvSort(8), n), types.Typ[types.Uint8]
+			}
+			w, signed, _ := intInfo(t)
+			if signed {
+				n = App("mod", "Int", n, BigLit(pow2(w)))
+			}
+			// byte decomposition by definition: v == sum_k byte_k(v)*256^k with every byte_k(v) in 0..255
+			// (conservative extension; makes injectivity of big-endian layouts a linear fact)
+			if !n.bound {
+				c.st.assume(byteDef(n, w))
+			}
+			return App(byteFn(k, w), "Int", n), types.Typ[types.Uint8]
+		case "b2i":
+			v, _ := c.expr(x.Args[0], sn)
+			return Ite(v.(*Node), e.ar.litI(1, types.Typ[types.Uint8]), e.ar.litI(0, types.Typ[types.Uint8])), types.Typ[types.Uint8]
+		case "u16val", "u32val", "u64val":
+			// big-endian value of the bytes a[p..p+n)
+			av, at := c.expr(x.Args[0], sn)
+			pv, pt := c.expr(x.Args[1], sn)
+			if _, ok := at.(*ghostArrT); !ok {
+				c.fail("%s needs a ghost byte array", id.Name)
+			}
+			p := c.coerce(pv, pt, types.Typ[types.Int])
+			nb := map[string]int{"u16val": 2, "u32val": 4, "u64val": 8}[id.Name]
+			rt := map[string]types.Type{"u16val": types.Typ[types.Uint16], "u32val": types.Typ[types.Uint32], "u64val": types.Typ[types.Uint64]}[id.Name]
+			var acc *Node
+			for i := 0; i < nb; i++ {
+				b := Select(av.(*Node), e.iadd(p, e.idx(int64(i))))
+				if !b.bound && e.mode == ModeInt {
+					c.st.assume(e.ar.inRange(b, types.Typ[types.Uint8]))
+				}
+				if e.mode == ModeBV {
+					if acc == nil {
+						acc = b
+					} else {
+						acc = App("concat", bvSort(8*(i+1)), acc, b)
+					}
+				} else {
+					t := App("*", "Int", b, BigLit(pow2(8*(nb-1-i))))
+					if acc == nil {
+						acc = t
+					} else {
+						acc = App("+", "Int", acc, t)
+					}
+				}
+			}
+			return acc, rt
+		case "beval":
+			// big-endian value of the given bytes (2, 4 or 8 of them)
+			nb := len(x.Args)
+			rt := map[int]types.Type{2: types.Typ[types.Uint16], 4: types.Typ[types.Uint32], 8: types.Typ[types.Uint64]}[nb]
+			if rt == nil {
+				c.fail("beval needs 2, 4 or 8 bytes")
+			}
+			var acc *Node
+			for i, a := range x.Args {
+				bv, bt := c.expr(a, sn)
+				b := c.coerce(bv, bt, types.Typ[types.Uint8])
+				if e.mode == ModeBV {
+					if acc == nil {
+						acc = b
+					} else {
+						acc = App("concat", bvSort(8*(i+1)), acc, b)
+					}
+				} else {
+					t := App("*", "Int", b, BigLit(pow2(8*(nb-1-i))))
+					if acc == nil {
+						acc = t
+					} else {
+						acc = App("+", "Int", acc, t)
+					}
+				}
+			}
+			return acc, rt
 		case "heapsame":
 			// heapsame("H:T.f") – the named heap is unchanged since old
 			return c.heapSame(x, sn), types.Typ[types.Bool]
@@ -881,6 +975,12 @@ func (f *specFunc) argT(i int) types.Type {
 
 var specFuncs = map[string]*specFunc{}
 
+func init() {
+	// bytek(v, k): byte k (0 = least significant) of the unsigned value v, as a uint8
+	specFuncs["bytek"] = &specFunc{ret: types.Typ[types.Uint8]}
+	specFuncs["b2i"] = &specFunc{ret: types.Typ[types.Uint8]}
+}
+
 func parserParseExpr(s string) (ast.Expr, error) {
 	n, err := parseSpec(s)
 	if err != nil {
@@ -890,4 +990,64 @@ func parserParseExpr(s string) (ast.Expr, error) {
 		return nil, fmt.Errorf("not a type")
 	}
 	return n.Go, nil
+}
+
+func byteFn(k, w int) string {
+	fn := fmt.Sprintf("byte%d_%d", k, w)
+	TS.DeclFun(fn, []string{"Int"}, "Int")
+	return fn
+}
+
+// byteDef: 0 <= v < 2^w  ==>  v == sum byte_k(v)*256^k  and  0 <= byte_k(v) <= 255
+func byteDef(v *Node, w int) *Node {
+	var sum *Node
+	var cs []*Node
+	for k := 0; k < w/8; k++ {
+		b := App(byteFn(k, w), "Int", v)
+		cs = append(cs, App("<=", "Bool", IntLit(0), b), App("<=", "Bool", b, IntLit(255)))
+		t := App("*", "Int", b, BigLit(pow2(8*k)))
+		if sum == nil {
+			sum = t
+		} else {
+			sum = App("+", "Int", sum, t)
+		}
+	}
+	cs = append(cs, Eq(v, sum))
+	rng := And(App("<=", "Bool", IntLit(0), v), App("<", "Bool", v, BigLit(pow2(w))))
+	return Implies(rng, And(cs...))
+}
+
+// byteAxioms: quantified form of byteDef for the widths whose byte functions occur under a binder.
+func byteAxioms(as []*Node) []*Node {
+	widths := map[int]bool{}
+	seen := map[int]bool{}
+	var walk func(n *Node)
+	walk = func(n *Node) {
+		if seen[n.id] {
+			return
+		}
+		seen[n.id] = true
+		if len(n.Args) == 1 && strings.HasPrefix(n.Op, "byte") && n.Args[0].bound {
+			var k, w int
+			if c, _ := fmt.Sscanf(n.Op, "byte%d_%d", &k, &w); c == 2 {
+				widths[w] = true
+			}
+		}
+		for _, a := range n.Args {
+			walk(a)
+		}
+	}
+	for _, a := range as {
+		walk(a)
+	}
+	var out []*Node
+	for _, w := range []int{16, 32, 64} {
+		if widths[w] {
+			v := BoundVar(fmt.Sprintf("v!b%d", w), "Int")
+			q := Forall([]*Node{v}, byteDef(v, w))
+			q.Pattern = []*Node{App(byteFn(0, w), "Int", v)}
+			out = append(out, q)
+		}
+	}
+	return out
 }
